@@ -4,6 +4,7 @@ import (
 	"encoding/json"
 	"fmt"
 	"os"
+	_ "time/tzdata" // the time-zone database is embedded: worker time zones do not depend on the host's files
 )
 
 func main() {
